@@ -297,15 +297,23 @@ Definition fast_count (o : binop) (lt : ity) (kc : bool) (b : Z) : bool :=
   kc && (0 <=? b) && (b <? bits lt) &&
   (match o with Bshl | Basr => true | Bshr => negb (sgn lt) | _ => false end).
 
+(* which results the emitter casts to their own type: the three repairs 1d3f0fa (binary operators on
+   a result type narrower than int), 8eb30df (mixed-signedness /// %%%), 3d9c769 (constant-count <<
+   of an unsigned operand narrower than int).  The nested model is written for ANY policy; the policy
+   of the code under test is read from the emitter on every run (Gen, condition + emitted statement) *)
+Record cast_policy : Type := { p_binop : bool; p_tdiv : bool; p_shl : bool }.
+Definition gen_policy : cast_policy :=
+  {| p_binop := binop_casts_subint; p_tdiv := tdiv_mixed_casts_back; p_shl := shl_fast_casts_unsigned_subint |}.
+
 (* shl signed: ((T)((uT)l << k)); shl unsigned: (l << k), cast to T for T narrower than int only if
-   Gen.shl_fast_casts_unsigned_subint; shr / asr: (l >> k) *)
-Definition rt_shift_fast (o : binop) (lt cl : ity) (a b : Z) : option (ity * Z) :=
+   the policy says so (p_shl); shr / asr: (l >> k) *)
+Definition rt_shift_fast_p (p : cast_policy) (o : binop) (lt cl : ity) (a b : Z) : option (ity * Z) :=
   match o with
   | Bshl =>
       if sgn lt then
         omap (fun v => (lt, v))
              (obind (obind (c_conv Gnu (to_unsigned lt) a) (fun a' => c_shl Gnu (to_unsigned lt) I32 a' b)) (c_conv Gnu lt))
-      else if shl_fast_casts_unsigned_subint && (bits lt <? 32) then
+      else if p_shl p && (bits lt <? 32) then
         omap (fun v => (lt, v)) (obind (c_shl Gnu cl I32 a b) (c_conv Gnu lt))
       else omap (fun v => (c_shift_type cl, v)) (c_shl Gnu cl I32 a b)
   | Bshr | Basr => omap (fun v => (c_shift_type cl, v)) (c_shr Gnu cl I32 a b)
@@ -313,34 +321,34 @@ Definition rt_shift_fast (o : binop) (lt cl : ity) (a b : Z) : option (ity * Z) 
   end.
 
 (* kc: the right operand is a compile-time constant (only the shift fast paths look at it here) *)
-Definition rt_bin_c (o : binop) (lt rt cl cr : ity) (a b : Z) (kc : bool) : option (ity * Z) :=
+Definition rt_bin_c_p (p : cast_policy) (o : binop) (lt rt cl cr : ity) (a b : Z) (kc : bool) : option (ity * Z) :=
   let t := rt_type o lt rt in
-  if fast_count o lt kc b then rt_shift_fast o lt cl a b
+  if fast_count o lt kc b then rt_shift_fast_p p o lt cl a b
   else if uses_helper o lt rt then
     (* the arguments are converted to the helper's parameter types by the C call *)
     of_stored (rt_bin o lt rt a b)
   else if is_cmpop o then omap (fun v => (I32, v)) (plain_c o cl cr a b)
   else if mixed lt rt && (match o with Btdiv | Btmod => true | _ => false end) then
-    (* ((T)l / (T)r), cast back to T iff Gen.tdiv_mixed_casts_back (8eb30df) *)
+    (* ((T)l / (T)r), cast back to T iff p_tdiv (8eb30df) *)
     let raw := obind (c_conv Gnu t a) (fun a' => obind (c_conv Gnu t b) (plain_c o t t a')) in
-    if tdiv_mixed_casts_back then omap (fun v => (t, v)) (obind raw (c_conv Gnu t))
+    if p_tdiv p then omap (fun v => (t, v)) (obind raw (c_conv Gnu t))
     else omap (fun v => (c_arith_type t t, v)) raw
-  else if mixed lt rt || (binop_casts_subint && (bits t <? 32)) then
+  else if mixed lt rt || (p_binop p && (bits t <? 32)) then
     omap (fun v => (t, v)) (obind (plain_c o cl cr a b) (c_conv Gnu t))   (* (T)(l op r) *)
   else omap (fun v => (c_arith_type cl cr, v)) (plain_c o cl cr a b).
 
 (* the value of `l o r` stored in a variable of its type, the count possibly a constant *)
-Definition rt_bin_k (o : binop) (lt rt : ity) (a b : Z) (kc : bool) : rres :=
+Definition rt_bin_k_p (p : cast_policy) (o : binop) (lt rt : ity) (a b : Z) (kc : bool) : rres :=
   if fast_count o lt kc b then
-    match rt_shift_fast o lt lt a b with
+    match rt_shift_fast_p p o lt lt a b with
     | Some (_, v) => of_val lt (Some v)
     | None => Rundef
     end
   else rt_bin o lt rt a b.
 
 (* the outer operator applied to a left operand of Nelua type ti, C type ci, value v; result stored *)
-Definition rt_outer (o2 : binop) (ti t3 ci : ity) (v c : Z) : rres :=
-  match rt_bin_c o2 ti t3 ci t3 v c false with
+Definition rt_outer_p (p : cast_policy) (o2 : binop) (ti t3 ci : ity) (v c : Z) : rres :=
+  match rt_bin_c_p p o2 ti t3 ci t3 v c false with
   | None => Rundef
   | Some (_, w) =>
       if is_cmpop o2 then Rbool (negb (w =? 0))
@@ -348,15 +356,22 @@ Definition rt_outer (o2 : binop) (ti t3 ci : ity) (v c : Z) : rres :=
   end.
 
 (* `(x o1 y) o2 z`; k1: y is a compile-time constant *)
-Definition rt_nested_l (o1 o2 : binop) (t1 t2 t3 : ity) (a b c : Z) (k1 : bool) : rres :=
-  match rt_bin_c o1 t1 t2 t1 t2 a b k1 with
+Definition rt_nested_l_p (p : cast_policy) (o1 o2 : binop) (t1 t2 t3 : ity) (a b c : Z) (k1 : bool) : rres :=
+  match rt_bin_c_p p o1 t1 t2 t1 t2 a b k1 with
   | None => Rundef
-  | Some (c1, v1) => rt_outer o2 (rt_type o1 t1 t2) t3 c1 v1 c
+  | Some (c1, v1) => rt_outer_p p o2 (rt_type o1 t1 t2) t3 c1 v1 c
   end.
 
 (* the same with the inner result stored first: `local t = x o1 y; t o2 z` *)
-Definition rt_stored_l (o1 o2 : binop) (t1 t2 t3 : ity) (a b c : Z) (k1 : bool) : rres :=
-  match rt_bin_k o1 t1 t2 a b k1 with
-  | Rval ti v1 => rt_outer o2 ti t3 ti v1 c
+Definition rt_stored_l_p (p : cast_policy) (o1 o2 : binop) (t1 t2 t3 : ity) (a b c : Z) (k1 : bool) : rres :=
+  match rt_bin_k_p p o1 t1 t2 a b k1 with
+  | Rval ti v1 => rt_outer_p p o2 ti t3 ti v1 c
   | _ => Rundef
   end.
+
+(* the code under test *)
+Definition rt_bin_c := rt_bin_c_p gen_policy.
+Definition rt_bin_k := rt_bin_k_p gen_policy.
+Definition rt_outer := rt_outer_p gen_policy.
+Definition rt_nested_l := rt_nested_l_p gen_policy.
+Definition rt_stored_l := rt_stored_l_p gen_policy.
